@@ -32,6 +32,16 @@ func (d *DiskKV) replayLogs() error {
 			return fmt.Errorf("error decoding entry to mutation at index %d: %w", i, err)
 		}
 		if err := d.handleMutation(mut); err != nil {
+			if i == index && i > 1 {
+				// the last entry is a mutation that was rejected when it was first applied and
+				// the process stopped before it could be rolled back: finish the rollback now
+				d.logger.Warn("Rolling back rejected mutation at the end of the log", zap.Uint64("index", i), zap.Error(err))
+				if terr := d.log.TruncateBack(i - 1); terr != nil {
+					return fmt.Errorf("error rolling back rejected mutation at index %d: %w", i, terr)
+				}
+				index = i - 1
+				break
+			}
 			return fmt.Errorf("error apply mutation to memory state at index %d: %w", i, err)
 		}
 		entry.Reset()
